@@ -389,7 +389,7 @@ def model_constants(oip, cs, names, contents, bad=()):
 
 
 def gen_cfg(ctx, oip, cs, names, contents, maxlen, mode, bad=()):
-    name = "Gen_Provider_%s_%s_%d.cfg" % (flavour_name(oip, cs), mode, maxlen)
+    name = "Gen_Provider_%s_%s_%d_%d.cfg" % (flavour_name(oip, cs), mode, maxlen, len(list(names)))
     text = model_constants(oip, cs, names, contents, bad) + \
         " MaxMutations = 0\n MaxLen = %d\n EmitMode = \"%s\"\nSPECIFICATION GenSpec\n%sINVARIANT Emit\nCHECK_DEADLOCK FALSE\n" \
         % (maxlen, mode, "VIEW GenView\n" if mode == "action" else "")
@@ -409,7 +409,8 @@ def parse_gen(res, names, depth, what, every=False):
     for h in res.printed():
         if h.startswith("{"):
             d = json.loads(h)
-            c = {"calls": d["calls"], "tags": sorted(d["tags"]), "names": list(names), "depth": depth}
+            pt = [sorted(t) for t in d["tags"]]
+            c = {"calls": d["calls"], "tags": pt[-1], "ptags": pt, "names": list(names), "depth": depth}
             if every:
                 c["observe_every"] = 1
             out.append(c)
@@ -422,10 +423,22 @@ def _exec_chunk(args):
     return [execute(kind, c, scratch) for c in cases]
 
 
-def run_cases(ctx, plan):
-    """plan: list of (kind, [cases]).  Returns {kind: (cases, traces)}."""
+def make_pool(ctx):
+    """Worker processes, forked BEFORE any thread is started (the TLC runs are driven from threads later on) and
+    with the package already imported."""
+    import gc
     import multiprocessing
-    import_repo()                               # before forking: the workers inherit the imported package
+    import_repo()
+    gc.collect()
+    gc.freeze()                                 # the workers must not copy the parent's heap page by page
+    try:
+        return multiprocessing.get_context("fork").Pool(ctx.workers)
+    finally:
+        gc.unfreeze()
+
+
+def run_cases(ctx, plan, pool):
+    """plan: list of (kind, [cases]).  Returns {kind: (cases, traces)}."""
     jobs = []
     for kind, cases in plan:
         step = max(5, min(400, len(cases) // (3 * ctx.workers) + 1))
@@ -433,24 +446,21 @@ def run_cases(ctx, plan):
             jobs.append((kind, cases[k:k + step], ctx.scratch))
     random.Random(1).shuffle(jobs)              # spread the slow (file system) chunks over the workers
     out = {}
-    import gc
-    gc.collect()
-    gc.freeze()                                 # forked workers must not copy the parent's heap page by page
-    try:
-        with multiprocessing.get_context("fork").Pool(ctx.workers) as pool:
-            for job, trs in zip(jobs, pool.map(_exec_chunk, jobs, chunksize=1)):
-                cs_, ts_ = out.setdefault(job[0], ([], []))
-                cs_.extend(job[1])
-                ts_.extend(trs)
-    finally:
-        gc.unfreeze()
+    for job, trs in zip(jobs, pool.map(_exec_chunk, jobs, chunksize=1)):
+        cs_, ts_ = out.setdefault(job[0], ([], []))
+        cs_.extend(job[1])
+        ts_.extend(trs)
     return out
 
 
 def signature(kind, case, trace, line, clause):
     ev = trace[line - 1]
     parts = clause.split("/")
-    sig = {"clause": parts[0], "provider": kind, "op": ev["op"], "tags": case["tags"]}
+    k = line - 1                                # number of calls made when the clause failed
+    ptags = case.get("ptags") or [case["tags"]] * len(case["calls"])
+    tags = [] if k == 0 else ptags[min(k, len(ptags)) - 1]
+    call = case["calls"][k - 1].get("tg", []) if 1 <= k <= len(case["calls"]) else []
+    sig = {"clause": parts[0], "provider": kind, "op": ev["op"], "tags": tags, "call": "+".join(sorted(call))}
     if parts[0] == "ErrorClass":
         sig["expected"] = parts[1].strip("{}").replace(" ", "")
         sig["got"] = int(parts[2])
@@ -471,20 +481,38 @@ def judge(ctx, results, what, stats=None):
     traces of their own.  When TLC found that the provider's tree already differed from the model after a proper
     prefix (in that prefix's own trace), the longer trace's findings are consequences of it and are not reported a
     second time under the last call's name ('shadowed', counted in the evidence)."""
-    total, found = 0, []
+    from concurrent.futures import ThreadPoolExecutor
+    total, found, groups = 0, [], []
     for oip, cs in FLAVOURS:
         traces, meta = [], []
         for kind, (cases, trs) in sorted(results.items()):
             if KINDS[kind][:2] == (oip, cs):
                 traces.extend(trs)
                 meta.extend((kind, c) for c in cases)
-        if not traces:
-            continue
-        viols, _ = tc.validate(ctx, "Trace_Provider", trace_cfg(ctx, oip, cs), traces,
-                               "%s [%s]" % (what, flavour_name(oip, cs)), min_batch=600)
-        total += len(traces)
-        for ti, line, clause in sorted(viols):
-            found.append((meta[ti][0], meta[ti][1], traces[ti], line, clause))
+        if traces:
+            groups.append((oip, cs, traces, meta))
+    nall = sum(len(g[2]) for g in groups)
+
+    class Part:                                  # the four flavours are validated side by side; counters merged below
+        def __init__(self, share):
+            self.scratch, self.workers = tempfile.mkdtemp(prefix="judge_", dir=ctx.scratch), share
+            self.tlc_runs, self.cov = [], {"states": 0, "transitions": 0, "traces_validated_against_impl": 0}
+
+    def one(g):
+        oip, cs, traces, meta = g
+        part = Part(max(1, min(ctx.workers, round(ctx.workers * len(traces) / max(1, nall)))))
+        viols, _ = tc.validate(part, "Trace_Provider", trace_cfg(ctx, oip, cs), traces,
+                               "%s [%s]" % (what, flavour_name(oip, cs)), min_batch=1200)
+        return part, viols
+
+    with ThreadPoolExecutor(max_workers=len(groups) or 1) as pool:
+        for g, (part, viols) in zip(groups, pool.map(one, groups)):
+            ctx.tlc_runs.extend(part.tlc_runs)
+            for k, v in part.cov.items():
+                ctx.cov[k] += v
+            total += len(g[2])
+            for ti, line, clause in sorted(viols):
+                found.append((g[3][ti][0], g[3][ti][1], g[2][ti], line, clause))
     diverged = set()
     for kind, case, tr, line, clause in found:
         if clause.split("/")[0] in DIVERGE:
@@ -501,7 +529,7 @@ def judge(ctx, results, what, stats=None):
                                "clause": clause},
                          replay={"kind": kind, "case": case})
         if stats is not None:
-            key = (fid or "UNLISTED", "clean" if not case["tags"] else ",".join(case["tags"]))
+            key = (fid or "UNLISTED", "clean" if not sig["tags"] else ",".join(sig["tags"]))
             stats[key] = stats.get(key, 0) + 1
             if os.environ.get("VERIF_DEBUG"):
                 k2 = json.dumps({k: v for k, v in sig.items()}, sort_keys=True) + " " + (fid or "UNLISTED")
@@ -550,14 +578,17 @@ def run(ctx):
 
     from concurrent.futures import ThreadPoolExecutor
     contents = [2, 8]
-    maxlen = 3
     nsim = 20 if quick else 200
     keep = 4 if quick else 6
 
-    def fam_names(fl):
-        # case-sensitive flavours: a and A are two unrelated names already; case-insensitive ones need a third
-        # name to have two different ones.  thorough: three names everywhere
-        return [1, 2] if (quick and fl[1]) else [1, 2, 3]
+    def families(fl):
+        """(names, calls) of the exhaustive families of a flavour.  quick: case-sensitive flavours use a, A (two
+        unrelated names there), case-insensitive ones a, A, b (to have two different names).  thorough: a, A, b to
+        3 calls and a, A to 4 calls everywhere."""
+        if quick:
+            return [([1, 2] if fl[1] else [1, 2, 3], 3)]
+        return [([1, 2, 3], 3), ([1, 2], 4)]
+    maxlen = 3 if quick else 4
     spec_dir = os.path.join(os.path.dirname(os.path.abspath(tc.__file__)), "..", "spec")
 
     def design(fl):
@@ -569,9 +600,14 @@ def run(ctx):
                                "mutation reported [%s]" % flavour_name(*fl), workers=2 if quick else 4, count=False)
 
     def exhaustive(fl):
-        res = ctx.tlc("Gen_Provider", gen_cfg(ctx, fl[0], fl[1], fam_names(fl), contents, maxlen, "action"), workers=1,
-                      what="all transitions up to %d calls [%s]" % (maxlen, flavour_name(*fl)), count=False)
-        return parse_gen(res, fam_names(fl), 2, flavour_name(*fl)), res
+        out, runs = [], []
+        for names, n in families(fl):
+            res = ctx.tlc("Gen_Provider", gen_cfg(ctx, fl[0], fl[1], names, contents, n, "action"), workers=1,
+                          what="all transitions up to %d calls, names %s [%s]" % (n, names, flavour_name(*fl)),
+                          count=False)
+            out += parse_gen(res, names, 2, flavour_name(*fl))
+            runs.append(res)
+        return out, runs
 
     def simulated(fl):
         res = ctx.tlc("Gen_Provider", gen_cfg(ctx, fl[0], fl[1], range(1, 7), range(1, 11), 10, "final", bad=[BAD]),
@@ -579,74 +615,84 @@ def run(ctx):
                       what="simulate 10 calls, full alphabet [%s]" % flavour_name(*fl), count=False)
         return parse_gen(res, range(1, 7), 2, "simulate " + flavour_name(*fl), every=True), res
 
-    # 1. design level, 3. exhaustive family, 4. simulated long histories: twelve TLC runs side by side
-    with ThreadPoolExecutor(max_workers=12) as pool:
+    # design level (4), exhaustive family (4), simulated long histories (4): twelve TLC runs side by side; the
+    # exhaustive family is executed and judged while the design runs and the simulations are still going
+    only = os.environ.get("VERIF_C16_KINDS", "").split(",") if os.environ.get("VERIF_C16_KINDS") else None   # debugging aid
+    part = os.environ.get("VERIF_C16_PART", "all")                                                           # debugging aid
+    stats, results, counted = {}, {}, []
+    workers = make_pool(ctx)
+    pool = ThreadPoolExecutor(max_workers=12)
+    try:
         f_design = [pool.submit(design, fl) for fl in FLAVOURS]
         f_fam = {fl: pool.submit(exhaustive, fl) for fl in FLAVOURS}
         f_sim = {fl: pool.submit(simulated, fl) for fl in FLAVOURS}
-        counted = [f.result() for f in f_design]
+
+        def kinds_plan(by_flavour, extra=None):
+            plan = []
+            for kind, (oip, cs, filt) in KINDS.items():
+                if (filt and quick) or (only and kind not in only):
+                    continue
+                cases = list(by_flavour[(oip, cs)])
+                if extra:
+                    cases += [f["exemplar"]["case"] for f in ctx.findings
+                              if f.get("exemplar") and f["exemplar"]["kind"] == kind]
+                plan.append((kind, cases))
+            return plan
+
+        def do(plan, what):
+            res = run_cases(ctx, plan, workers)
+            dbg("executed " + what)
+            n = judge(ctx, res, what, stats)
+            dbg("judged " + what)
+            ctx.count(evaluations=n)
+            for kind, (cs_, ts_) in res.items():
+                a, b = results.setdefault(kind, ([], []))
+                a.extend(cs_)
+                b.extend(ts_)
+
         fam = {}
         for fl, f in f_fam.items():
-            fam[fl], res = f.result()
-            counted.append(res)
-        simres = {fl: f.result() for fl, f in f_sim.items()}
+            fam[fl], runs = f.result()
+            counted.extend(runs)
+            if len(fam[fl]) < 500:
+                raise MachineryError("generator produced only %d histories" % len(fam[fl]))
+        dbg("exhaustive generators")
+        ctx.cov["exhaustive"] = True
+        ctx.extra["exhaustive_transitions"] = {flavour_name(*k): len(v) for k, v in fam.items()}
+        # exemplars of the listed findings are re-executed on every run, together with the exhaustive family
+        plan = kinds_plan(fam if part != "sims" else {fl: [] for fl in FLAVOURS}, extra=True)
+        ctx.extra["family_sizes"] = {k: len(v) for k, v in plan}
+        do(plan, "all transitions up to %d calls + exemplars" % maxlen)
+
+        sims = {}
+        for fl, f in f_sim.items():
+            allh, res = f.result()
+            groups = {}
+            for h in allh:                                      # candidates that share a prefix: keep a few of each
+                groups.setdefault(json.dumps(h["calls"][:-1]), []).append(h)
+            if len(groups) < nsim:
+                raise MachineryError("simulation produced only %d histories\n%s" % (len(groups), res.tail()))
+            pick = []
+            for key in sorted(groups):
+                g = sorted(groups[key], key=lambda h: json.dumps(h["calls"][-1]))
+                rng.shuffle(g)
+                pick.extend(g[:keep])
+            sims[fl] = pick
+        dbg("simulations generated")
+        ctx.extra["simulated_histories"] = {flavour_name(*k): len(v) for k, v in sims.items()}
+        if part != "exhaustive":
+            plan = kinds_plan(sims)
+            for k, v in plan:
+                ctx.extra["family_sizes"][k] = ctx.extra["family_sizes"].get(k, 0) + len(v)
+            do(plan, "simulated sequences of 10 calls")
+        counted += [f.result() for f in f_design]
+        dbg("design runs")
+    finally:
+        workers.terminate()
+        pool.shutdown(wait=True)
     for res in counted:
         ctx.cov["states"] += res.distinct
         ctx.cov["transitions"] += res.generated
-    dbg("design + generators")
-    for fl in FLAVOURS:
-        if len(fam[fl]) < 500:
-            raise MachineryError("generator produced only %d histories" % len(fam[fl]))
-    ctx.cov["exhaustive"] = True
-    ctx.extra["exhaustive_transitions"] = {flavour_name(*k): len(v) for k, v in fam.items()}
-    sims = {}
-    for fl in FLAVOURS:
-        allh, res = simres[fl]
-        groups = {}
-        for h in allh:                                          # candidates that share a prefix: keep a few of each
-            groups.setdefault(json.dumps(h["calls"][:-1]), []).append(h)
-        pick = []
-        for key in sorted(groups):
-            g = groups[key]
-            rng.shuffle(g)
-            pick.extend(g[:keep])
-        if len(groups) < nsim:
-            raise MachineryError("simulation produced only %d histories\n%s" % (len(groups), res.tail()))
-        sims[fl] = pick
-    ctx.extra["simulated_histories"] = {flavour_name(*k): len(v) for k, v in sims.items()}
-
-    stats = {}
-    # 2. exemplars of the listed findings (re-executed on every run)
-    ex = {}
-    for f in ctx.findings:
-        e = f.get("exemplar")
-        if e:
-            ex.setdefault(e["kind"], ([], []))
-            ex[e["kind"]][0].append(e["case"])
-            ex[e["kind"]][1].append(execute(e["kind"], e["case"], ctx.scratch))
-    if ex:
-        judge(ctx, ex, "exemplars of listed findings")
-
-    plan = []
-    for kind, (oip, cs, filt) in KINDS.items():
-        if kind == "fs":
-            cases = fam[(True, True)] + sims[(True, True)]
-        elif filt:
-            if quick:
-                continue
-            cases = fam[(oip, cs)] + sims[(oip, cs)]
-        else:
-            cases = fam[(oip, cs)] + sims[(oip, cs)]
-        plan.append((kind, cases))
-    if os.environ.get("VERIF_C16_KINDS"):          # debugging aid only
-        plan = [(k, v) for k, v in plan if k in os.environ["VERIF_C16_KINDS"].split(",")]
-    ctx.extra["family_sizes"] = {k: len(v) for k, v in plan}
-    dbg("plan %s" % ctx.extra["family_sizes"])
-    results = run_cases(ctx, plan)
-    dbg("executed")
-    n = judge(ctx, results, "generated call sequences", stats)
-    dbg("judged")
-    ctx.count(evaluations=n)
     ctx.extra["fs_events_assertion_glitches"] = fs_glitches(results)
 
     nontrivial, strata = set(), {}
